@@ -27,7 +27,8 @@ RULE = ('(universes) DynamicUniverse / StaticUniverse alone: entry maps over 1-8
         ' Round-5 reach: the universe-driven alpha model is also built with its optional data-handler argument (a handler pricing every other asset): its signals still cover exactly the members.'
         " Round-10 reach: configured static lists naming a symbol twice; `static` part: a second strategy with its own portfolio and static universe on the same account (after every rebalance each portfolio holds assets of its own universe only)."
         " Round-11 reach: whole-number / boolean weight dictionaries for the optimisers; entry dates given as datetime.datetime; a MomentumSignal built over the universe takes up later entrants before the universe is queried."
-        " Round-12 reach: mixed-case symbols (EQ:Brk.b, EQ:spy); entry instants carrying a fraction of a second.")
+        " Round-12 reach: mixed-case symbols (EQ:Brk.b, EQ:spy); entry instants carrying a fraction of a second."
+        " Round-13 reach: optimisers given a data handler that carries a universe of its own; the entry mapping of a live universe edited in place; an entry exactly at the last instant of a plain-date end, with the public allocation table's columns checked.")
 ASSUMPTIONS = [
     'UTC-aware timestamps; up to 8 assets (direct) / 5 symbols (sessions); sessions of 8-60 days',
     'session markets are dense with data from 9 days before the start (an unpriced member is C06/C07\'s subject)',
@@ -95,7 +96,21 @@ def run_universe(case):
                     ' (built with a data handler pricing %s)' % assets[::2] if k else '', t, w, want))
         if any(e is not None and e == t for e in entries):
             exact = True
+    if case.get('edit_live'):
+        # the entry-date mapping of the live universe is edited (an undated asset is given a date, a dated one a later date):
+        # later queries follow the mapping as it is now
+        a_ = assets[case['edit_live'] % len(assets)]
+        new_e = T0 + pd.Timedelta(minutes=7) if amap[a_] is None else None
+        dyn.asset_dates[a_] = new_e
+        amap[a_] = new_e
+        for t in (T0 + pd.Timedelta(minutes=6), T0 + pd.Timedelta(minutes=7), T0 + pd.Timedelta(days=3)):
+            want = [a for a in dyn.asset_dates if amap[a] is not None and amap[a] <= t]
+            if list(dyn.get_assets(t)) != want:
+                raise Violation('after %s was given the entry %s on the live universe, its members at %s are %s; entries <= t give %s' % (
+                    a_, new_e, t, list(dyn.get_assets(t)), want))
     cls = ['has_none'] if None in entries else []
+    if case.get('edit_live'):
+        cls.append('entry_mapping_edited_on_the_live_universe')
     if case.get('pydatetime'):
         cls.append('entries_as_datetime_objects')
     if case.get('signal_on_universe') is not None:
@@ -122,7 +137,7 @@ def universes(draw):
         qs.append(draw(st.sampled_from(['y2300', 'y2300', 'y9999', 'y1968', 'y1968', 'y1700'])))      # ... centuries ahead, or back
     zones = [draw(st.sampled_from([None, None, None, 'America/New_York', 'Asia/Tokyo', 'Europe/London'])) for _ in assets]
     return {'assets': assets, 'entries': entries, 'queries': qs, 'zones': zones, 'dup': draw(st.sampled_from([0, 0, 1, 2])),
-            'pydatetime': draw(st.sampled_from([False, False, True])),
+            'pydatetime': draw(st.sampled_from([False, False, True])), 'edit_live': draw(st.sampled_from([0, 0, 1, 2, 5])),
             'entry_us': [draw(st.sampled_from([0, 0, 0, 250000, 1, 999999])) for _ in assets],
             'signal_on_universe': draw(st.sampled_from([None, None, 1, 400, 4000]))}
 
@@ -131,11 +146,17 @@ def run_optimiser(case):
     q = load()
     scale = case['scale']
     fixed = q.FixedWeightPortfolioOptimiser()
+    okw = {}
+    if case.get('dh_universe') is not None:
+        # the optimisers are given their optional data handler - one that carries a universe of its own (every symbol on
+        # disk, say): the weights cover exactly the assets they are given all the same
+        okw['data_handler'] = q.BacktestDataHandler(q.StaticUniverse(['EQ:X%d' % k_ for k_ in range(case['dh_universe'])]), data_sources=[])
+        fixed = q.FixedWeightPortfolioOptimiser(**okw)
     if scale == 'default':
-        opt = q.EqualWeightPortfolioOptimiser()
+        opt = q.EqualWeightPortfolioOptimiser(**okw)
         scale = 1.0
     else:
-        opt = q.EqualWeightPortfolioOptimiser(scale=scale)
+        opt = q.EqualWeightPortfolioOptimiser(scale=scale, **okw)
     cls = ['default_scale' if case['scale'] == 'default' else 'explicit_scale']
     nt = False
     prev = None
@@ -186,7 +207,7 @@ def optimisers(draw):
         more.append({a: draw(_wval) for a in other})
     return {'weights': w, 'more': more, 'scale': draw(st.one_of(st.sampled_from(['default', 1.0, 2.0, 0.5, 0.0, 0]),
                                                                   st.floats(0.01, 10).map(lambda x: float('%.4g' % x)))),
-            'new_scale': draw(st.sampled_from([None, None, 0.5, 3.0]))}
+            'new_scale': draw(st.sampled_from([None, None, 0.5, 3.0])), 'dh_universe': draw(st.sampled_from([None, None, 0, 1, 7]))}
 
 
 def run_sess(case):
@@ -251,6 +272,15 @@ def _verify_session(case, r, label):
         for a in want:
             if row[a] != sig:
                 raise Violation('%s: member %s has target weight %r at %s, the signal is %r' % (label, a, row[a], t, sig))
+    if rows and r.equity_curve and getattr(r, 'bt', None) is not None:
+        # the public allocation table carries a column for every asset that was given a weight at some rebalance - also one
+        # that entered on the session's last day
+        r.bt.target_allocations = r.allocations
+        cols = set(r.bt.get_target_allocations().columns)
+        want_cols = set(k for row in rows for k in row if k != 'Date')
+        if cols != want_cols:
+            raise Violation('%s: the allocation table has columns %s; the rebalances gave weights to %s (end %s, entries %s)' % (
+                label, sorted(cols), sorted(want_cols), cfg['end'], {a: str(e) for a, e in entry.items()}))
     for f in r.fills:
         a = f[1]
         if first.get(a) is None or f[0] < first[a]:
@@ -288,6 +318,12 @@ def sessions(draw):
             dates[a] = v
             lab = lab + ['entry_' + l]
         cfg['universe'] = {'kind': 'dynamic', 'dates': dates}
+    inst_ = sessgen.instants(sched, start, end)
+    if tuple(end[3:]) == (0, 0, 0) and inst_ and list(inst_[-1][:3]) == list(end[:3]) and draw(st.booleans()):
+        # the end is a plain date and the last day has a rebalance: an asset enters exactly at that last instant
+        a_ = draw(st.sampled_from(sorted(cfg['universe']['dates'])))
+        cfg['universe']['dates'][a_] = list(inst_[-1])
+        lab = lab + ['entry_at_the_last_instant_of_a_plain_date_end']
     rerun = draw(st.booleans())
     if not rerun and draw(st.sampled_from([False, False, True])):
         # the session itself trades a static universe of every symbol; only the alpha model follows the dated entries
